@@ -1,9 +1,126 @@
-// ---- assumed contract of the `flat-tree` crate (dependency) ----
+// ---- assumed contract of the `flat-tree` crate (dependency) ------------------------------------------------
+// A node of the flat in-order tree is (depth d, offset o): index = o * 2^(d+1) + 2^d - 1; it spans the leaves
+// [o * 2^d, (o+1) * 2^d), i.e. the flat indices strictly between index - 2^d and index + 2^d.
 pub mod flat_tree {
 use vstd::prelude::*;
+
+pub open spec fn p2(n: nat) -> int decreases n { if n == 0 { 1 } else { 2 * p2((n - 1) as nat) } }
+pub proof fn lemma_p2_pos(n: nat) ensures p2(n) >= 1 decreases n { if n > 0 { lemma_p2_pos((n - 1) as nat); } }
+pub proof fn lemma_p2_mono(a: nat, b: nat) requires a <= b ensures p2(a) <= p2(b) decreases b - a
+{ if a < b { lemma_p2_mono(a, (b - 1) as nat); lemma_p2_pos((b - 1) as nat); } }
+pub proof fn lemma_p2_strict(a: nat, b: nat) requires a < b ensures 2 * p2(a) <= p2(b) { lemma_p2_mono(a + 1, b); }
+pub proof fn lemma_p2_62() ensures p2(62) == 0x4000_0000_0000_0000, p2(40) == 0x100_0000_0000, p2(41) == 0x200_0000_0000, p2(42) == 0x400_0000_0000
+{ reveal_with_fuel(p2, 63); }
+
+/// flat index of node (d, o)
+pub open spec fn node_index(d: nat, o: int) -> int { o * p2(d + 1) + p2(d) - 1 }
+
+/// leaf L is the start of a block of 2^a leaves that reaches at least to `upto`
+pub open spec fn leaf_aligned(l: int, a: nat, upto: int) -> bool { a <= 61 && l % p2(a + 1) == 0 && upto <= l + p2(a + 1) }
+
 pub uninterp spec fn spec_parent(i: u64) -> u64;
 #[verifier::external_body]
 pub fn parent(i: u64) -> (r: u64)
     ensures r == spec_parent(i)
+{ unimplemented!() }
+
+pub struct Iterator { pub index: u64, pub offset: u64, pub factor: u64, pub d: Ghost<nat> }
+
+impl Iterator {
+    pub open spec fn wf(&self) -> bool {
+        &&& self.d@ <= 61
+        &&& self.factor == p2(self.d@ + 1)
+        &&& self.index == node_index(self.d@, self.offset as int)
+        &&& self.index + self.factor <= 0x7fff_ffff_ffff_ffff
+    }
+    /// `x` lies in the span of this node
+    pub open spec fn spans(&self, x: int) -> bool { self.index - p2(self.d@) < x < self.index + p2(self.d@) }
+
+    #[verifier::external_body]
+    pub fn new(index: u64) -> (r: Iterator)
+        requires index < 0x2000_0000_0000_0000
+        ensures r.wf(), r.index == index, index % 2 == 0 ==> r.d@ == 0 && r.offset == index / 2
+    { unimplemented!() }
+    #[verifier::external_body]
+    pub fn seek(&mut self, index: u64)
+        requires index < 0x2000_0000_0000_0000
+        ensures final(self).wf(), final(self).index == index, index % 2 == 0 ==> final(self).d@ == 0 && final(self).offset == index / 2
+    { unimplemented!() }
+    #[verifier::external_body]
+    pub fn index(&self) -> (r: u64) ensures r == self.index { unimplemented!() }
+    #[verifier::external_body]
+    pub fn offset(&self) -> (r: u64) ensures r == self.offset { unimplemented!() }
+    #[verifier::external_body]
+    pub fn factor(&self) -> (r: u64) ensures r == self.factor { unimplemented!() }
+    #[verifier::external_body]
+    pub fn is_left(&self) -> (r: bool) ensures r == (self.offset % 2 == 0) { unimplemented!() }
+    #[verifier::external_body]
+    pub fn is_right(&self) -> (r: bool) ensures r == (self.offset % 2 == 1) { unimplemented!() }
+    #[verifier::external_body]
+    pub fn contains(&self, index: u64) -> (r: bool)
+        requires self.wf()
+        ensures r == self.spans(index as int)
+    { unimplemented!() }
+    #[verifier::external_body]
+    pub fn sibling(&mut self) -> (r: u64)
+        requires old(self).wf(), old(self).index + 2 * old(self).factor <= 0x7fff_ffff_ffff_ffff
+        ensures final(self).wf(), final(self).d@ == old(self).d@, r == final(self).index,
+            final(self).offset == (if old(self).offset % 2 == 0 { old(self).offset + 1 } else { old(self).offset - 1 })
+    { unimplemented!() }
+    #[verifier::external_body]
+    pub fn parent(&mut self) -> (r: u64)
+        requires old(self).wf(), old(self).d@ < 61, old(self).index + 2 * old(self).factor <= 0x7fff_ffff_ffff_ffff
+        ensures final(self).wf(), final(self).d@ == old(self).d@ + 1, final(self).offset == old(self).offset / 2, r == final(self).index
+    { unimplemented!() }
+    #[verifier::external_body]
+    pub fn left_child(&mut self) -> (r: u64)
+        requires old(self).wf()
+        ensures final(self).wf(), r == final(self).index,
+            old(self).d@ == 0 ==> *final(self) == *old(self),
+            old(self).d@ > 0 ==> final(self).d@ == old(self).d@ - 1 && final(self).offset == 2 * old(self).offset
+    { unimplemented!() }
+    #[verifier::external_body]
+    pub fn right_child(&mut self) -> (r: u64)
+        requires old(self).wf()
+        ensures final(self).wf(), r == final(self).index,
+            old(self).d@ == 0 ==> *final(self) == *old(self),
+            old(self).d@ > 0 ==> final(self).d@ == old(self).d@ - 1 && final(self).offset == 2 * old(self).offset + 1
+    { unimplemented!() }
+    /// first leaf to the right of this node's span
+    #[verifier::external_body]
+    pub fn next_tree(&mut self) -> (r: u64)
+        requires old(self).wf(), old(self).index + old(self).factor <= 0x3fff_ffff_ffff_ffff
+        ensures final(self).wf(), final(self).d@ == 0, r == final(self).index, final(self).index == old(self).index + p2(old(self).d@) + 1
+    { unimplemented!() }
+    /// from a leaf L: climb to the root of the largest full tree that starts at L and ends below `index`
+    #[verifier::external_body]
+    pub fn full_root(&mut self, index: u64) -> (r: bool)
+        requires old(self).wf(), index <= 0x1fff_ffff_ffff_ffff,
+            // the leaf is aligned for every tree that fits below `index`
+            old(self).d@ == 0 ==> (exists|a: nat| #[trigger] leaf_aligned(old(self).index as int, a, index as int))
+        ensures
+            r == (index > old(self).index && old(self).index % 2 == 0),
+            !r ==> *final(self) == *old(self),
+            r ==> final(self).wf() && final(self).index == old(self).index + p2(final(self).d@) - 1
+                && old(self).index + p2(final(self).d@ + 1) <= index < old(self).index + p2(final(self).d@ + 2)
+    { unimplemented!() }
+}
+
+/// flat_tree::full_roots(i, &mut nodes): appends the roots of the full trees covering leaves [0, i/2)
+pub uninterp spec fn spec_full_roots(i: int) -> Seq<u64>;
+#[verifier::external_body]
+pub fn full_roots(i: u64, nodes: &mut Vec<u64>)
+    requires i % 2 == 0      // the real function asserts this (panics otherwise)
+    ensures final(nodes)@ == old(nodes)@ + spec_full_roots(i as int), spec_full_roots(i as int).len() <= 64,
+        forall|k: int| 0 <= k < spec_full_roots(i as int).len() ==> (#[trigger] spec_full_roots(i as int)[k]) < i
+{ unimplemented!() }
+#[verifier::external_body]
+pub fn right_span(i: u64) -> (r: u64)
+    requires i < 0x2000_0000_0000_0000
+    ensures i % 2 == 0 ==> r == i, i <= r < 2 * i + 2
+{ unimplemented!() }
+#[verifier::external_body]
+pub fn left_span(i: u64) -> (r: u64)
+    ensures i % 2 == 0 ==> r == i, r <= i
 { unimplemented!() }
 } // mod flat_tree
